@@ -7,7 +7,8 @@ META = {
     "technique": "Coq proof by representation invariant + refinement to a full-copy stack (induction over histories); model tied to stack.rs by exhaustive/random differential runs of the extracted model",
     "text": "Theorem C11_stack_transactional (coq/props/C11.v, closed under the global context): for every finite history the "
             "model of pest/src/stack.rs never panics and its contents/returned elements after each operation equal the naive "
-            "full-copy model's. The model is tied to the code on every run: pest::Stack<u8> and the extracted model are run on all "
+            "full-copy model's; corollaries C11_checkpoint_restore / C11_checkpoint_clear (coq/Stack/Laws.v): at every reachable state and nesting depth "
+            "`snapshot; well-bracketed body; restore` is invisible to every continuation and `...; clear_snapshot` leaves the enclosing saved copies untouched. The model is tied to the code on every run: pest::Stack<u8> and the extracted model are run on all "
             "histories up to a length bound and on long random nested histories and must agree after every operation on contents, "
             "returned element and the three internal vectors; the extracted naive specification is run on the same histories as the property oracle.",
     "note": "Trusted: Coq kernel; extraction (ExtrOcamlBasic only); harness/runner; Vec/usize semantics modelled (checked subtraction and drain ranges = panic). "
